@@ -20,7 +20,7 @@ if (cd "$WT" && timeout 300 go test -vet=off -count=1 -run 'Seed|seed' "./$DIR/"
 # the check on the changed tree (demo file removed first: checks look at non-test sources only)
 rm -f "$WT/$DIR/zz_seed_demo_test.go"
 if [ "${CHECKS:-}" = ALL ]; then CHECKS="C01 C02 C03 C04 C05 C06 C07 C08 C09 C10 C11 C12 C13 C14 C15 C16 C17 C18 C19 C20"; fi
-run1() { local P=$1; VERIF_REPO="$WT" bin/kmipsa -repo "$WT" -verif "$PWD" -outdir /tmp/seedchk/out-$P -prop "$P" -tier quick -evidence /tmp/seedchk/ev.$P.json > /tmp/seedchk/check.$P.log 2>&1; echo "$P $?" > /tmp/seedchk/rc.$P; }
+run1() { local P=$1; VERIF_REPO="$WT" ${KMIPSA:-bin/kmipsa} -repo "$WT" -verif "$PWD" -outdir /tmp/seedchk/out-$P -prop "$P" -tier quick -evidence /tmp/seedchk/ev.$P.json > /tmp/seedchk/check.$P.log 2>&1; echo "$P $?" > /tmp/seedchk/rc.$P; }
 export -f run1; export WT PWD
 echo ${CHECKS:-$ID} | tr ' ' '\n' | xargs -P 10 -I{} bash -c 'run1 {}'
 any=0
